@@ -17,6 +17,27 @@ MERGE_ITERS = ['petl.transform.joins:iterjoin', 'petl.transform.joins:iterantijo
 
 def run(ctx):
     rep = ctx.report
+    from ..typestate import check_sentinels as _sentinels
+    rep.rule('R6.10', 'a local that starts as None is not compared (==, !=) with per-row values before it was tested for None: None is a legal key and cell value')
+    ctx.floor('sentinel_scan_functions', _sentinels(ctx, rep, 'R6.10', ctx.functions(['petl.transform.joins'])), 20)
+    # `missing` reaches every padding site unchanged: the C12 R12.5 obligations of this module
+    from . import c12 as _c12
+    from ..report import Report as _Report
+    _sub = _Report('C12', ctx.tier, ctx.root)
+    _saved = ctx.report
+    ctx.report = _sub
+    try:
+        _c12.r125(ctx, _sub)
+    finally:
+        ctx.report = _saved
+    _n = 0
+    for _o in _sub.obligations:
+        if _o.module == 'petl.transform.joins':
+            _n += 1
+            rep.add('R6.9', (_o.module, _o.qualname), _o.construct, _o.status, _o.message, _o.lineno, _o.detail)
+    if _n < 8:
+        raise AnalysisError('anchor vanished: only %d `missing` forwarding sites in petl.transform.joins' % _n)
+    rep.rule('R6.9', 'the caller\'s `missing` is forwarded unchanged to every callee that pads (stack, the iterator functions): C12 R12.5 restricted to petl.transform.joins')
     from ..typestate import check_functions as _rowbuffers
     rep.rule('R6.7', 'output rows are assembled in a container that is created anew (or emptied) between two deliveries: no cell of one output row is carried into the next (row-buffer typestate)')
     ctx.floor('row_buffer_generators', _rowbuffers(ctx, rep, 'R6.7', ctx.functions(['petl.transform.joins'])), 5)
@@ -311,12 +332,23 @@ def r64_65(ctx, rep):
     ctx.report = sub4
     try:
         c04.r43(ctx, sub4)
+        c04.r41(ctx, sub4)
+        c04.r42(ctx, sub4)
     finally:
         ctx.report = saved
     names = set(fq.split(':')[1] for fq in MERGE_ITERS)
+    n68 = 0
     for o in sub4.obligations:
-        if o.module == 'petl.transform.joins' and o.qualname.split('.')[0] in names:
+        if o.rule == 'R4.3' and o.module == 'petl.transform.joins' and o.qualname.split('.')[0] in names:
             rep.add('R6.5', (o.module, o.qualname), o.construct, o.status, o.message, o.lineno, o.detail)
+        if o.rule in ('R4.1', 'R4.2') and o.module == 'petl.comparison':
+            n68 += 1
+            rep.add('R6.8', (o.module, o.qualname), o.construct, o.status, o.message, o.lineno, o.detail)
+    if n68 < 6:
+        raise AnalysisError('anchor vanished: only %d Comparable obligations' % n68)
+    rep.rule('R6.8', 'the merge decides "equal key / left behind / right behind" with <, > and == on Comparable keys: these '
+                     'are a strict weak order consistent with == (None equal to None and before everything else) -- C04 R4.1 '
+                     'decision table and order laws, R4.2 derived operators')
     sub20 = Report('C20', ctx.tier, ctx.root)
 
     class _Ctx(object):
